@@ -461,6 +461,9 @@ func TestVerif_C06(t *testing.T) {
 			for _, z := range zs {
 				for _, s := range ss {
 					for _, a := range as {
+						if z == 65535 && !((s == 0 || s == 4097 || s == 1<<24-1) && (a == 0 || a == 1 || a == 4097)) {
+							continue // 256 MiB layouts: reduced s/|a| sub-lattice (the zones are independent)
+						}
 						idx++
 						if !r.Mine(idx) {
 							continue
